@@ -314,6 +314,15 @@ Example C09_nonvacuous_steady :
   start_time (est_run line_evs (est_new Rar 0)) = 0%N.
 Proof. exact (conj line_evs_on_line line_evs_run). Qed.
 
+(** hypotheses of C09_bar_steady: one public update 15 s after creation, r = 1 *)
+Example C09_nonvacuous_bar_steady : forall len,
+  no_wrap steady_ops 0 /\
+  segs_ok (fun x => x = 1) (bar_evs steady_ops 0 (bar_new Rar len 0)) (est_new Rar 0) /\
+  let b := fst (run_state Rar steady_ops 0 (bar_new Rar len 0)) in
+  let now := snd (run_state Rar steady_ops 0 (bar_new Rar len 0)) in
+  b_done b = false /\ (start_time (b_est b) < prev_time (b_est b))%N /\ now = prev_time (b_est b).
+Proof. exact steady_ops_example. Qed.
+
 (** the decay condition double_smoothed >= smoothed is met with positive rates (steady progress) *)
 Example C09_nonvacuous_decay_condition :
   est_run [ERec 15 15000000000] (est_new Rar 0) = (mkEst (9 / 10) (9 / 10) 15%N 15000000000%N 0%N : est R).
